@@ -91,3 +91,14 @@ Proof.
   intros H. pose proof (history_no_internal_error total ops o) as Hn. rewrite H in Hn.
   destruct e; cbn in Hn; try discriminate; repeat split; discriminate.
 Qed.
+
+(* round 5: the hypothesis of C19_history_no_internal_error (`the next operation ends in an error`) is satisfiable: all
+   four kinds of errors the modelled driver CAN raise occur after real histories *)
+Lemma no_internal_error_hyp_satisfiable :
+  snd (step_with find_place (run (clear 1000) [OUpload 1 [(11, 256)] false]) (OUpload 1 [(11, 256)] false)) = Some AlreadyKnown /\
+  snd (step_with find_place (run (clear 1000) [OUpload 1 [(11, 256)] false]) (ORemove 7)) = Some UnknownProgram /\
+  snd (step_with find_place (run (clear 1000) [OUpload 1 [(11, 256)] false]) (OUpload 2 [(12, 1024)] false))
+    = Some (Refused NotEnoughMemory) /\
+  snd (step_with find_place (run (clear 1000) [OUpload 1 [(11, 320)] false; OUpload 2 [(12, 192)] false; OFree 1])
+                 (OUpload 3 [(13, 336)] false)) = Some (Refused Fragmentation).
+Proof. vm_compute. repeat split; reflexivity. Qed.
